@@ -952,6 +952,13 @@ func instrumentLocks(scratch string) map[string]string {
 						if sel.Sel.Name == "Update" {
 							// an Update commits when its closure returns: crash candidate before it
 							text += fmt.Sprintf("verifhook.Point(%q); ", fmt.Sprintf("commit:%s:%d", filepath.Base(path), line))
+							// and the start of its closure (snapshot taken, not yet committed) is where another
+							// client's commit can land: a scheduling point of its own
+							if len(tc.Args) == 1 {
+								if fl, ok := tc.Args[0].(*ast.FuncLit); ok && fl.Body != nil {
+									edits = append(edits, ins{fset.Position(fl.Body.Lbrace).Offset + 1, fmt.Sprintf(" verifhook.Point(%q); ", fmt.Sprintf("txnbody:%s:%d", filepath.Base(path), line))})
+								}
+							}
 						}
 						edits = append(edits, ins{fset.Position(st.Pos()).Offset, text})
 						continue
